@@ -18,7 +18,8 @@ RULE = (
     'sums. Non-trivial: a group with multiplier followed by another item, or nesting >= 2, or a charged/isotopic '
     'species with count > 1. Round 4: augmented += and *=, a zero multiple inside a sum, in-place add() on '
     'results. Later rounds: two-digit charge numbers; Element operands of a species new to the sum, in the other '
-    'isotope mode; operands re-read after the sum. Distinct = distinct case JSON.'
+    'isotope mode; operands re-read after the sum. Round 8: charged D and T; the same species on both sides of a '
+    'sum in another order. Distinct = distinct case JSON.'
 )
 ASSUMPTIONS = [
     "elements whose isotopes all have zero natural abundance are used only with an explicit isotope",
